@@ -42,6 +42,17 @@ var vC03Stmts = []vC03Stmt{
 	{"select key, int(value) as n where n > 0 order by n desc limit 2", "012", 1, 1, nil},
 	{"select value, count(1), group_concat(key, '-') where key >= '' group by value order by value desc", "ab", 1, 1, nil},
 	{"select key, value where value ~= '^a'", "", 0, 0, []string{"ab", "ba", "a"}},
+	// operands that depend on the row on both sides of every operator family
+	{"select key where value between key and 'b'", "abc", 1, 1, nil},
+	{"select key where key between value and value + 'z'", "abc", 1, 1, nil},
+	{"select key, upper(value) as u where u between upper(key) and 'C'", "abc", 1, 1, nil},
+	{"select key where int(value) between strlen(key) and int(value) + 1", "012", 1, 1, nil},
+	{"select key where value in (key, 'a', upper(key))", "abA", 1, 1, nil},
+	{"select key where int(value) in (strlen(key), int(value) - 1, 2)", "012", 1, 1, nil},
+	{"select key where key < value | value ^= key", "abc", 0, 2, nil},
+	{"select key where key + value = value + key & strlen(key) <= strlen(value)", "abc", 0, 2, nil},
+	{"select key, int(value) / strlen(value), int(value) * strlen(key) where key >= ''", "012", 1, 2, nil},
+	{"select key where !(value = key) and (value != 'a' or key != 'b')", "abc", 1, 1, nil},
 }
 
 func VN_C03(tier int) int { return len(vC03Stmts) }
